@@ -757,7 +757,7 @@ func CheckC05(rr *RunResult, res *vprop.Result) {
 			// "and never again after an attempt succeeds or returns a permanent error"
 			for k := 0; k+1 < len(invs); k++ {
 				o := invs[k].Out
-				if invs[k].Exit >= 0 && (o.EngineSuccess() || o == Permanent || o == WrongType) {
+				if invs[k].Exit >= 0 && (o.EngineSuccess() || o == Permanent || o == WrongType || o == WrongTypeErr) {
 					res.Fail("C05/invoked-after-final", "%s: invocation #%d happened after #%d ended with %s", r.Tag(), invs[k+1].N, invs[k].N, o)
 					return
 				}
@@ -850,7 +850,7 @@ func CheckC05(rr *RunResult, res *vprop.Result) {
 					res.Fail("C05/attempt-content", "%s attempt %d: failed invocation recorded with a response %#v", r.Tag(), k, at.Resp)
 					return
 				}
-			case WrongType:
+			case WrongType, WrongTypeErr:
 				// "a response whose type differs from the plugin's declared response type fails the action permanently
 				// without storing the response"
 				if at.Err == nil || !at.Err.Permanent {
